@@ -8,7 +8,10 @@
 #include "StringUtility.h"
 #include "XFile.h"
 #include "BitTwiddle.h"
+#include "Archive/ArchiveFile.h"
+#include <algorithm>
 #include <memory>
+#include <map>
 #include <set>
 #include <functional>
 #include <thread>
@@ -175,6 +178,45 @@ void powerOfTwo(Ctx& ctx, uint64_t from, uint64_t to)
 	ctx.transition(to - from); ctx.state(to - from);
 }
 
+// "sorting is deterministic up to equal names and adjacent-duplicate detection is complete": every list of up to maxLen
+// names over a pool (all orders, repetitions included) is sorted with the library's comparator as the archive writers
+// do (by file name), then offered to the library's duplicate check: it must refuse exactly the lists holding two names
+// equal ignoring case, wherever the pair ends up - first, middle or last - and every permutation of a duplicate-free
+// list must sort to the same sequence
+void sortAndDuplicates(Ctx& ctx, int maxLen)
+{
+	const std::vector<std::string> pool = { "a", "A", "ab", "aB", "a_", "b", "B.x", "b.X", "z9", "Z9" };
+	auto fold = [](const std::string& x) { std::string r = x; for (auto& c : r) if (c >= 'A' && c <= 'Z') c = char(c + 32); return r; };
+	std::vector<int> idx;
+	uint64_t lists = 0;
+	std::map<std::vector<std::string>, std::vector<std::string>> sortedOf;   // set of names (sorted bytewise) -> sequence after the library sort
+	std::function<void()> rec = [&] {
+		{
+			std::vector<std::string> names; for (int i : idx) names.push_back(pool[i]);
+			std::vector<std::string> sorted = names;
+			std::sort(sorted.begin(), sorted.end(), Archive::ArchiveFile::ComparePathFilenames);
+			bool dup = false; { std::set<std::string> seen; for (auto& n : names) if (!seen.insert(fold(n)).second) dup = true; }
+			std::string key; for (auto& n : names) key += n + " ";
+			if ((lists & 255) == 0) ctx.sub("names " + key);
+			auto o = mc::guarded([&] { Archive::ArchiveFile::VerifySortedContainerHasNoDuplicateNames(sorted); });
+			ctx.transition(); ++lists;
+			ctx.count(dup ? "duplicates/lists-with-a-duplicate" : "duplicates/duplicate-free-lists");
+			if (dup && o.cls == 'R') { std::string so; for (auto& n : sorted) so += n + " "; ctx.violation("C19/duplicates/undetected", "names " + key, "sorted as " + so); }
+			if (!dup && o.cls != 'R') ctx.violation("C19/duplicates/false-report", "names " + key, o.what);
+			if (!dup) {
+				std::vector<std::string> ms = names; std::sort(ms.begin(), ms.end());   // the same names (exact spelling) in another order
+				auto it = sortedOf.find(ms);
+				if (it == sortedOf.end()) sortedOf[ms] = sorted;
+				else if (it->second != sorted) { std::string so; for (auto& n : sorted) so += n + " "; ctx.violation("C19/order/sort-depends-on-input-order", "names " + key, "sorted as " + so); }
+			}
+		}
+		if (int(idx.size()) == maxLen) return;
+		for (int i = 0; i < int(pool.size()); ++i) { idx.push_back(i); rec(); idx.pop_back(); }
+	};
+	rec();
+	ctx.state(lists); ctx.trace(lists);
+}
+
 struct CaseDef { int kind; uint64_t a, b; };
 std::vector<CaseDef> gCases;
 std::string gPart;
@@ -190,6 +232,7 @@ void build(Ctx& ctx)
 		gCases.push_back({ 0, len, 16 }); gCases.push_back({ 1, len, 16 }); gCases.push_back({ 2, 4, 16 }); gCases.push_back({ 3, 0, 16 }); gCases.push_back({ 4, 0, 16 }); return;
 	}
 	gCases.push_back({ 0, 3, 1 }); gCases.push_back({ 1, 3, 1 }); gCases.push_back({ 2, 3, 1 }); gCases.push_back({ 5, 0, 1 });
+	gCases.push_back({ 6, uint64_t(ctx.thorough ? 5 : 4), 1 });
 }
 
 void runCase(std::size_t i, Ctx& ctx)
@@ -218,6 +261,7 @@ void runCase(std::size_t i, Ctx& ctx)
 		orderingLaws(ctx, S, 1, "8 boundary bytes incl. >= 0x80, length <= 2");
 		ctx.trace(); break;
 	}
+	case 6: sortAndDuplicates(ctx, int(c.a)); ctx.sample("every list of up to " + std::to_string(c.a) + " names over a 10-name pool: sorted with the library comparator, duplicate check must refuse exactly the lists with two names equal ignoring case"); break;
 	case 10: powerOfTwo(ctx, c.a, c.b); ctx.trace(); if (c.a == 0) ctx.sample("IsPowerOf2(v) == (popcount(v) == 1) for every v in [0, 2^26) ... 64 such blocks cover all 2^32 values"); break;
 	default:
 		for (uint32_t k = 0; k < 32; ++k) { ctx.transition(); ctx.count("bits/logarithms"); if (Log2OfPowerOf2(uint32_t(1) << k) != k) ctx.violation("C19/bits/log2-of-power", "2^" + std::to_string(k), std::to_string(Log2OfPowerOf2(uint32_t(1) << k))); }
